@@ -435,7 +435,7 @@ impl Space for FormatSpace {
         let name = self.fmt.name();
         let syms = self.syms.get_or_init(SymCache::new);
         // A child that dies (abort, signal, time limit) is re-run without the call that killed it, so
-        // that the remaining entry points of the case are observed too (at most 4 deaths per case).
+        // that the remaining entry points of the case are observed too (at most 2 deaths per case in quick, 4 in thorough).
         let mut skip: Vec<u32> = vec![];
         let mut deaths: Vec<sandbox::Death> = vec![];
         let mut rep;
@@ -445,7 +445,7 @@ impl Space for FormatSpace {
             let hang = d.class.starts_with("hang");
             skip.push(d.call_no);
             deaths.push(d);
-            if deaths.len() >= 4 || hang || sb.nofork {
+            if deaths.len() >= if thorough() { 4 } else { 2 } || hang || sb.nofork {
                 break;
             }
             r.count("reruns_after_a_death", 1);
@@ -643,7 +643,7 @@ fn main() {
         thorough only: all pairs of <= 40 header-level sites (strided if a seed has more) x 6x6 values {0,2^32-1,2^31-1,2^31,field+1,file_len} for every seed. \
         Every case runs all entry points of the format in a forked child under the monitors: no panic, no abort/signal, no stack overflow, return within 50 s (engine watchdog 60 s), \
         no single allocation request and no peak live heap above 256 MiB + 4096 x input_len (requests above the limit are refused by the counting allocator). \
-        A dying child is re-run without the call that killed it (up to 4 deaths per case) so that the other entry points of the case are still observed. \
+        A dying child is re-run without the call that killed it (up to 2 deaths per case in quick, 4 in thorough) so that the other entry points of the case are still observed. \
         A case is non-trivial when a parser consumed more than 8 bytes of its input (counting reader; for the path/slice-only APIs of mpq, blp, ptch, codec: input longer than 8 bytes); cases whose deviation leaves the seed unchanged are skipped and counted. Distinct by (format, seed, deviation). \
         Symptom = entry point + failure class + site (panic: source file, innermost /repo function, message with digits collapsed; abort: innermost /repo function of the dying call chain)."
         .into();
